@@ -174,8 +174,8 @@ def gen_solve(d: Draw, planet_id, sol_id, spec):
         op['mangle'] = {'kind': d.pick(['short_array', 'wrong_dtype', 'noncontiguous', 'layer_type', 'tuple_len', 'upper_radius_list',
                                         'empty_interior_layer', 'empty_interior_layer', 'upper_radius_not_increasing',
                                         'first_upper_radius_zero', 'top_boundary_inside_grid', 'top_boundary_inside_grid',
-                                        'top_boundary_above_grid', 'aliased_density_gravity']),
-                        'which': d.below(5)}
+                                        'top_boundary_above_grid', 'aliased_density_gravity', 'short_array_tail', 'short_array_tail']),
+                        'which': d.below(15)}
     elif fault == 'bulk_density':
         o['_bulk_density'] = d.pick(['zero', 'nan', 'negative', 'tiny', 'inf'])
     elif fault == 'degree_high':
